@@ -58,12 +58,16 @@ StepOK01(r, n) ==
   /\ (a.op = "setcoords" =>
         LET q == Side(o, a.to)  d == Deflate(q.k, a.v) IN
         /\ o.err = "none" /\ q.val = a.v /\ q.flat = d.flat /\ q.ends = d.ends /\ q.endss = d.endss)
+  \* a value in which some coordinate has the wrong length is refused with a stride-mismatch error (what the receiver
+  \* holds afterwards is not prescribed - only that it is well formed, which WFAll demands of every projection)
+  /\ (a.op = "setbad" => o.err = "stride")
 First01(r) == LET bad == {n \in DOMAIN r.steps : ~StepOK01(r, n)} IN
               IF bad = {} THEN 0 ELSE CHOOSE n \in bad : \A m \in bad : n <= m
 Clause01(r, n) == LET o == r.steps[n] IN
   CASE o.o1.pan # <<>> -> "panic:" \o o.o1.pan[1]
     [] o.o2.pan # <<>> -> "panic:" \o o.o2.pan[1]
     [] ~(WFAll(o.o1) /\ WFAll(o.o2)) -> "ill-formed"
+    [] r.case.hist[n].op = "setbad" -> "wrong-length-coordinate-not-refused:" \o o.err
     [] OTHER -> "setcoords-not-lossless"
 
 LClass(l) == IF l = "No" THEN "No" ELSE "any"
